@@ -115,3 +115,7 @@ c.param("self", T.Ref("SimpleQueue"))
 c.ensures("close/both-ends", "log_count('conn_close') == 2 and log_arg('conn_close', 0, 0) is self._reader and log_arg('conn_close', 1, 0) is self._writer")
 c.raises_only("close/no-exception")
 c.modifies()
+
+c = M.contract("Queue._on_queue_feeder_error", props=["C04"])
+c.param("self", T.Ref("Queue")).param("e", T.Obj).param("obj", T.Obj)
+c.modifies()
